@@ -281,7 +281,7 @@ fn run_ops(ctx: Arc<Ctx>, body: usize, ops: Vec<AOp>, prefix: String) -> Pin<Box
     })
 }
 
-fn run_prog(p: &Arc<AProg>) {
+pub fn run_prog(p: &Arc<AProg>) {
     let ctx = Arc::new(Ctx {
         prog: (**p).clone(),
         flags: (0..p.flags).map(|_| Flag { set: AtomicBool::new(false), wakers: StdMutex::new(vec![]) }).collect(),
@@ -334,7 +334,7 @@ fn gen_ops(rng: &mut Rng, flags: usize, children: &[usize], thread_children: &[u
     ops
 }
 
-fn gen_prog(rng: &mut Rng) -> AProg {
+pub fn gen_prog(rng: &mut Rng) -> AProg {
     let nb = rng.range(2, 4);
     let flags = rng.range(0, 2);
     let mut parent = vec![0usize; nb];
